@@ -10,3 +10,6 @@ func remarshal(in any, out any) bool {
 	}
 	return json.Unmarshal(b, out) == nil
 }
+
+// C03Child is replaced by the real implementation in c03.go once it exists.
+var C03Child = func(args []string) {}
